@@ -556,6 +556,7 @@ class Compiler:
             self._compile_statement(node.body)
 
             continue_target = len(self.bytecode)
+            self._set_loc(node)  # the test belongs to the loop, not to the body's last statement
             self._compile_expression(node.test)
             self._emit(OpCode.JUMP_IF_TRUE, loop_start)
 
@@ -594,6 +595,7 @@ class Compiler:
             # Update
             continue_target = len(self.bytecode)
             if node.update:
+                self._set_loc(node)  # the update belongs to the loop, not to the body's last statement
                 self._compile_expression(node.update)
                 self._emit(OpCode.POP)
 
